@@ -81,9 +81,9 @@ def noise_classes():
 
     def mk(base):
         class Logged(base):
-            def apply(self, state, n_quantum, reg_list):
+            def apply(self, state, n_quantum, reg_list, *args, **kwargs):
                 LOG.append(("n", id(self), tuple(int(r) for r in reg_list)))
-                return super().apply(state, n_quantum, reg_list)
+                return super().apply(state, n_quantum, reg_list, *args, **kwargs)
 
         Logged.__name__ = "Logged" + base.__name__
         return Logged
@@ -91,7 +91,7 @@ def noise_classes():
     _NOISE_CLASSES.update(D=mk(nm.DepolarizingNoise), P=mk(nm.PauliError), L=mk(nm.PhotonLoss), NoNoise=nm.NoNoise)
 
     class Repl(nm.OneQubitGateReplacement):
-        def apply(self, state, n_quantum, reg_list):
+        def apply(self, state, n_quantum, reg_list, *args, **kwargs):
             LOG.append(("rn", id(self), tuple(reg_list)))
 
     _NOISE_CLASSES["R"] = Repl
@@ -269,7 +269,7 @@ def run_impl(circ, backend, noise_sim, det):
         def __getattr__(self, nm):
             return getattr(self._c, nm)
 
-        def sequence(self, unwrapped=False):
+        def sequence(self, *args, **kwargs):
             return seq
 
     comp = Logging()
@@ -925,6 +925,8 @@ def infidelity_check(res, spec, det, rng):
         v_d = Infidelity(QuantumState(sig.copy(), rep_type="dm")).evaluate(a["state"], None)
     except Exception as e:  # noqa: BLE001
         res.notes.append(f"Infidelity raised {type(e).__name__} on a loss-free noisy state")
+        res.violation(f"infidelity:raises:{type(e).__name__}", "Infidelity.evaluate raised on a valid loss-free noisy state (the metric must return the same value in "
+                      "both representations)", input=dict(spec=repr(spec), det=det), impl=repr(e)[:200])
         return
     mix, _ = mixture_of(b["state"])
     ref_m = 1 - sum(p * float(np.trace(du.stab_density(t) @ sig).real) for p, t in mix)
